@@ -37,7 +37,9 @@ pub fn run_one(out: &mut Out, sc: usize, s: &J) {
             let mut ws = csl::TransactionWitnessSet::new();
             ws.set_redeemers(&reds);
             let body = csl::TransactionBody::new_tx_body(&csl::TransactionInputs::new(), &csl::TransactionOutputs::new(), &csl::BigNum::from(0u64));
-            let tx = csl::Transaction::new(&body, &ws, None);
+            let mut tx = csl::Transaction::new(&body, &ws, None);
+            // (the ledger's script fee does not look at the validity flag: a transaction marked phase-2 invalid pays the same)
+            if s.get("invalid").and_then(|x| x.as_bool()) == Some(true) { tx.set_is_valid(false); }
             call(|| csl::min_script_fee(&tx, &pr)).to_json(|c| obj(vec![("v_n", jbn(&c))]))
         }
         _ => panic!("unknown fn {}", f),
@@ -72,7 +74,7 @@ fn gen(rng: &mut Rng) -> J {
             let n = 1 + rng.below(4);
             let near = rng.chance(1, 6);
             let reds: Vec<J> = (0..n).map(|_| if near { json!([jn(rng.edge_u64() / n), jn(rng.edge_u64() / n)]) } else { json!([jn(rng.below(20_000)), jn(rng.below(20_000_000))]) }).collect();
-            json!({"fn":"script","reds":reds,"mn_n":jn(mn),"md_n":jn(md),"sn_n":jn(sn),"sd_n":jn(sd)})
+            json!({"fn":"script","reds":reds,"mn_n":jn(mn),"md_n":jn(md),"sn_n":jn(sn),"sd_n":jn(sd),"invalid":rng.chance(1, 3)})
         }
         0 => {
             let (pn, pd) = price(rng);
@@ -85,6 +87,14 @@ fn gen(rng: &mut Rng) -> J {
             json!({"fn":"exu","mem_n":jn(rng.edge_u64()),"steps_n":jn(rng.edge_u64()),
                    "mn_n":jn(mn),"md_n":jn(md),"sn_n":jn(sn),"sd_n":jn(sd)})
         }
-        _ => json!({"fn":"lin","size_n":jn(rng.edge_u64() & 0xffff_ffff),"a_n":jn(rng.edge_u64()),"b_n":jn(rng.edge_u64())}),
+        // linear fee: half of the time the product size x coefficient sits right at 2^64 (the largest coefficient that still fits for this
+        // size, and the next one), with a constant that fits or tips the sum over
+        _ => if rng.chance(1, 2) {
+                let size = match rng.below(4) { 0 => 2 + rng.below(6), 1 => 1 + rng.below(70000), 2 => (1u64 << 31) + rng.below(5), _ => (1u64 << 32) - 1 - rng.below(3) };
+                let fit = u64::MAX / size;
+                let a = match rng.below(4) { 0 => fit, 1 => fit + 1, 2 => fit - rng.below(3), _ => fit + 1 + rng.below(1000) };
+                let room = u64::MAX - fit.saturating_mul(size).min(u64::MAX);
+                json!({"fn":"lin","size_n":jn(size),"a_n":jn(a),"b_n":jn(*rng.pick(&[0u64, room, room.saturating_add(1), 155381]))})
+             } else { json!({"fn":"lin","size_n":jn(rng.edge_u64() & 0xffff_ffff),"a_n":jn(rng.edge_u64()),"b_n":jn(rng.edge_u64())}) },
     }
 }
